@@ -172,12 +172,21 @@ def plan(prop, tier):
             jobs = [gen_job("c17", "native-debug", 60000, 16, timeout=1800), gen_job("c17", "native-release", 60000, 16, timeout=1800), gen_job("c17", "asan", 4000, 16, timeout=1800), gen_job("c17", "miri", 12, 16, timeout=2400)]
         return dict(jobs=jobs, level="exploration", rule=rule, floor_cells=["record:ignored", "record:overflow", "record:name-255", "record:no-name", "record:unknown-wd", "end:0", "end:1", "end:2", "keep:0", "keep:3", "events_checked"],
                     floor_evaluations=5000, assumptions=SIMK_ASSUMPTIONS + ["inotify_init1/inotify_add_watch are interposed by the harness (watch descriptors 1,2,3.. per instance like the kernel); record layout follows inotify(7): header 16 bytes, name padded with NULs to a multiple of 16"], also=[])
+    if prop == "C13":
+        rule = ("(a) real kernel differential (E6): the a10 operation on one fixture, the libc/std call on an identical twin, results and resulting state compared: read/write/read_vectored/write_vectored at offsets {cursor,0,random,2^32-1,2^32+1,2^40} with lengths incl. 0, truncate, allocate (+KEEP_SIZE), sync, advise, metadata vs fstat, open option matrix (exists x write x create x create_new x truncate x append x mode x kind) vs open(2), create_dir/remove_file/remove_dir/rename incl. failing cases vs libc, send/send_vectored/recv(PEEK)/socket options/shutdown on stream pairs, pipe, splice - each file/socket operation on a regular and on a direct descriptor; "
+                "(b) ABI sweep on the simulated kernel: 22 operation kinds with random arguments (waitid ids/options, madvise, socket, listen, shutdown, fsync, fallocate, fadvise, ftruncate, statx, unlink, mkdir, rename, open flags/mode/kind, splice roles/offsets/flags, connect/bind addresses, send_to, socket options, accept, read/write offsets), every submission field decoded with the independent ABI table and compared with the arguments, regular and direct descriptors; distinct = distinct (operation, arguments)")
+        if tier == "quick":
+            jobs = [gen_job("c13", "native-debug", 500, 8, timeout=600), gen_job("c13abi", "native-debug", 2500, 8)]
+        else:
+            jobs = [gen_job("c13", "native-debug", 8000, 16, timeout=3000), gen_job("c13", "native-release", 8000, 16, timeout=3000), gen_job("c13abi", "native-debug", 60000, 16, timeout=1800), gen_job("c13abi", "native-release", 60000, 16, timeout=1800)]
+        return dict(jobs=jobs, level="exploration", rule=rule, floor_cells=["op:write:regular", "op:write:direct", "op:read:direct", "op:read_vectored:regular", "op:write_vectored:direct", "op:open", "op:rename", "op:remove_dir", "op:send:direct", "op:recv:regular", "op:sockopt:direct", "op:shutdown:regular", "op:pipe", ["op:splice:regular", "op:splice:direct"], "op:allocate:regular", "op:truncate:direct", "abi:waitid", "abi:madvise", "abi:splice", "abi:open", "abi:accept", "abi-kind:direct"],
+                    floor_evaluations=5000, assumptions=["the real io_uring of this sandbox (kernel 6.18) and libc/std are the oracle for part (a); arguments are sampled, not enumerated", "part (b) trusts the harness' independent ABI table (written from the uapi header)", "operations needing privileges or devices are compared for equal failure"], also=[])
     return None
 
 
 ENGINES = [
     dict(name="baton-scheduler", path="/verif/harness/src/sched.rs, src/props/mt.rs", serves_properties=["C04", "C08", "C11"], kind_free_text="runtime monitoring: real threads, one running at a time, seeded scheduler switching at the cfg(a10_verif) hook points; reproducible schedules"),
-    dict(name="real-kernel", path="/verif/harness/src/props/real.rs, c16.rs", serves_properties=["C16"], kind_free_text="a10 on the real io_uring of the sandbox next to std/libc calls on the same descriptors (differential oracle)"),
+    dict(name="real-kernel", path="/verif/harness/src/props/real.rs, c16.rs", serves_properties=["C13", "C16"], kind_free_text="a10 on the real io_uring of the sandbox next to std/libc calls on the same descriptors (differential oracle)"),
     dict(name="pure-sweep", path="/verif/harness/src/props/c14.rs", serves_properties=["C14"], kind_free_text="differential sweep of pure functions against a reference model, natively and under Miri"),
     dict(name="simk-explorer", path="/verif/harness (scenarios c01..c09 on src/simk, src/world.rs, src/props/generic.rs)", serves_properties=["C01", "C02", "C03", "C05", "C06", "C07", "C09", "C10", "C12", "C15", "C17", "C18"], kind_free_text="runtime monitoring: real a10 driven single-threaded against an in-process simulated io_uring kernel with adversarial completion timing; boundary oracles (allocator monitor, waker ledger, descriptor ledger, request log)"),
 ]
@@ -235,6 +244,9 @@ CLAIMS = {
     "C17": dict(level="exploration", engine="simk-explorer", design_ref="DESIGN.md 4 C17", note=_NOTE,
                 technique="scripted trace specification: the yielded event sequence is compared with the user-visible records of the scripted stream; decoy records / uninitialised memory beyond the bytes written; snapshots of every handed-out reference",
                 text="The decoder is driven with arbitrary well-formed record streams in arbitrary batchings and must yield exactly the user-visible records in order with mask, unpadded name and path_for, forget watches on IN_IGNORED, skip overflow markers and never look beyond the bytes the kernel wrote (a decoy record there would be yielded; under Miri the bytes are uninitialised). References handed out are re-read after later polls and after dropping the iterator: the unchanged tree has the known findings D6."),
+    "C13": dict(level="exploration", engine="real-kernel differential + simk ABI sweep", design_ref="DESIGN.md 4 C13", note="trusted base: the real kernel + libc as oracle (part a); the harness' ABI table (part b)",
+                technique="differential testing against the real kernel on twin fixtures (regular and direct descriptors) and decoding of every submission field against the arguments on the simulated kernel",
+                text="For sampled arguments each a10 operation and the corresponding synchronous call run on identical twin fixtures on the real kernel and must agree on results, errno and resulting state (file bytes at the touched offsets, sizes, modes, directory trees, bytes received by the peer, option values); operations and values that cannot be run for real are checked by decoding the submission a10 builds. Known findings on the unchanged tree: metadata() and splice_to() do not work on direct descriptors."),
     "C09": dict(level="exploration", engine="simk-explorer", design_ref="DESIGN.md 4 C09", note=_NOTE,
                 technique="fault injection of EINTR/ECANCELED completions with byte-for-byte comparison of re-issued submissions",
                 text="More than half of all completions in this scenario are EINTR/ECANCELED; the caller must never observe them, every re-issued submission must be byte-identical (opcode, fd, flags, offsets, addresses, lengths, user_data) to the first, failed attempts scribble the buffers so mixed data would show, and the value must be the last attempt's."),
